@@ -31,9 +31,11 @@ void vp_c18_owner_str(char *out, uint32_t code) { ASSUME(code == 'o' || code == 
 void vp_c18_key_str(char *out, uint32_t code) { ASSUME(code == 'X' || (code >= 'A' && code <= 'D'));
   *(QAD**)out = code == 'A' ? c18_uk[0] : code == 'B' ? c18_uk[1] : code == 'C' ? c18_uk[2] : code == 'D' ? c18_uk[3] : c18_uk[4]; }
 /* code of a 1-unit string / 1-byte array (0 for anything else) */
-/* only MODEL blocks carry a code (static literals and foreign blocks are "unknown" = 0: callers fall back to the generic comparison or flag a model limit) */
-static uint32_t c18_code16(QAD *d) { if (d->f3 != QS_OFF || d->f1 != 1) return 0; return SD(d)[0]; }
-static uint32_t c18_code8(QAD *d) { if (d->f3 != QB_OFF || d->f1 != 1) return 0; return BD(d)[0]; }
+/* only MODEL blocks carry a code: a model block that is not exactly one unit long has code 0 (it equals no universe element);
+   anything else (static literal, foreign block) is C18_UNKNOWN: callers fall back to the generic comparison or flag a model limit */
+#define C18_UNKNOWN 0xFFFFFFFFu
+static uint32_t c18_code16(QAD *d) { if (d->f3 != QS_OFF) return C18_UNKNOWN; if (d->f1 != 1) return 0; return SD(d)[0]; }
+static uint32_t c18_code8(QAD *d) { if (d->f3 != QB_OFF) return C18_UNKNOWN; if (d->f1 != 1) return 0; return BD(d)[0]; }
 uint32_t vp_c18_jid_code(char *s) { return c18_code16(*(QAD**)s); }
 uint32_t vp_c18_key_code(char *s) { return c18_code8(*(QAD**)s); }
 
@@ -41,53 +43,68 @@ uint32_t vp_c18_key_code(char *s) { return c18_code8(*(QAD**)s); }
 #ifdef HAVE_T_struct_QListData__Data
 uint32_t vp_c18_list_len(char *l) { struct ld *d = LD(l); return d->end - d->begin; }
 uint8_t vp_c18_list_has_key(char *l, uint32_t code) { struct ld *d = LD(l); uint8_t r = 0;
-  for (uint32_t j = 0; j < LIST_CAP; j++) { if (j < d->end && c18_code8((QAD*)d->array[j]) == code) r = 1; } return r; }
+  for (uint32_t j = 0; j < LIST_CAP; j++) { if (j < d->end) { uint32_t c = c18_code8((QAD*)d->array[j]); ASSERT(c != C18_UNKNOWN, "C18: key id that was not built by the string model"); if (c == code) r = 1; } } return r; }
 uint8_t vp_c18_list_has_jid(char *l, uint32_t code) { struct ld *d = LD(l); uint8_t r = 0;
-  for (uint32_t j = 0; j < LIST_CAP; j++) { if (j < d->end && c18_code16((QAD*)d->array[j]) == code) r = 1; } return r; }
-uint32_t vp_c18_list_key(char *l, uint32_t j) { struct ld *d = LD(l); ASSUME(j < LIST_CAP); return j < d->end ? c18_code8((QAD*)d->array[j]) : 0; }
+  for (uint32_t j = 0; j < LIST_CAP; j++) { if (j < d->end) { uint32_t c = c18_code16((QAD*)d->array[j]); ASSERT(c != C18_UNKNOWN, "C18: JID that was not built by the string model"); if (c == code) r = 1; } } return r; }
+uint32_t vp_c18_list_key(char *l, uint32_t j) { struct ld *d = LD(l); ASSUME(j < LIST_CAP); return j < d->end ? c18_code8((QAD*)d->array[j]) : 0; }   /* C18_UNKNOWN is rejected by Store::addOne */
 
-/* class-level overrides of QList<T>::append(const T&) for in-place element types (QByteArray, QString: one d pointer per node):
-   typed store at array[end] (a store through the raw node pointer returned by QListData::append would be a byte-level update
-   of the whole block once `end` is symbolic).  A shared / static-null block is replaced by a private copy first. */
-static char *c18_dummy_owner;   /* d pointer of a default-constructed QXmppTrustMessageKeyOwner: filler of unused QList<QXmppTrustMessageKeyOwner> slots */
-void vp_c18_set_dummy_owner(char *o) { c18_dummy_owner = *(char**)o; }
-char* vp_c18_list_owner(char *l, uint32_t j) { struct ld *d = LD(l); ASSUME(j < LIST_CAP); return (char*)&d->array[j]; }
+/* ---- class-level model of QList<T> block management for the three in-place element types of this property
+   (QByteArray, QString: one QArrayData pointer per node; QXmppTrustMessageKeyOwner: one QSharedDataPointer per node).
+   Overridden inline members: append(const T&), detach_helper(int), detach_helper(), detach_helper_grow, QList(const QList&),
+   operator+=(const QList&) (QString), dealloc.  The rest of QList<T> (iterators, at, size, isEmpty, erase, swap, ...) is real code
+   over the QListData model of qt_list.c.
+   Why: (1) typed stores `blk->array[end] = x` (a store through the raw node pointer returned by QListData::append is a byte-level
+   update of the whole block once `end` is symbolic); (2) every slot of every block always holds a VALID element of the list's own
+   element type (a filler beyond `end`): loops over a list of symbolic length read slots under guards symex cannot refute, and an
+   uninitialised slot would be a pointer to an unknown object there; (3) the static null block is recognised by ADDRESS so that
+   the first append takes one path.  Blocks and elements are never freed; reference counts of elements are over-approximated. ---- */
 #ifdef HAVE_G__ZN9QListData11shared_nullE
 #define C18_IS_NULL_LIST(d) ((char*)(d) == (char*)&G__ZN9QListData11shared_nullE)
 #else
 #define C18_IS_NULL_LIST(d) 0
 #endif
-static struct ld *c18_list_fresh(char *filler) { struct ld *t = malloc(sizeof(struct ld)); ASSUME(t != 0); t->ref = 1; t->alloc = LIST_CAP; t->begin = 0; t->end = 0;
-  for (uint32_t j = 0; j < LIST_CAP; j++) t->array[j] = filler; return t; }
-/* makes the list's block private and appendable; the common case (first append to a default-constructed list: the static null
-   block, recognised by ADDRESS so that symex takes one path only) allocates a block whose unused slots hold `filler` */
-static void c18_list_own(char *self, char *filler) { struct ld *d = LD(self);
-  if (C18_IS_NULL_LIST(d)) { LD(self) = c18_list_fresh(filler); return; }
-  if (d->ref != 1) { struct ld *t = c18_list_fresh(filler); t->end = d->end - d->begin;
-    for (uint32_t j = 0; j < LIST_CAP; j++) { if (j < t->end) { QAD *e = (QAD*)d->array[d->begin + j]; qad_ref(e); t->array[j] = (char*)e; } }
-    if (d->ref != (uint32_t)-1 && d->ref != 0) d->ref--;
-    LD(self) = t; } }
-/* fillers of unused list slots: empty MODEL blocks of the element's own block type (typed reads of every merge alternative fold) */
-static QAD *c18_empty_qb, *c18_empty_qs;
+static QAD *c18_empty_qb, *c18_empty_qs;   /* fillers: empty MODEL blocks */
+static char *c18_dummy_owner;              /* filler: d pointer of a default-constructed QXmppTrustMessageKeyOwner */
+void vp_c18_set_dummy_owner(char *o) { c18_dummy_owner = *(char**)o; }
+char* vp_c18_list_owner(char *l, uint32_t j) { struct ld *d = LD(l); ASSUME(j < LIST_CAP); return (char*)&d->array[j]; }
+enum { C18_B, C18_S, C18_K };
+static char *c18_filler(int kind) { return kind == C18_B ? (char*)c18_empty_qb : kind == C18_S ? (char*)c18_empty_qs : c18_dummy_owner; }
+static char *c18_elem_ref(int kind, char *e) { if (kind == C18_K) (*(int32_t*)e)++; else qad_ref((QAD*)e); return e; }
+static struct ld *c18_list_fresh(int kind) { struct ld *t = malloc(sizeof(struct ld)); ASSUME(t != 0); t->ref = 1; t->alloc = LIST_CAP; t->begin = 0; t->end = 0;
+  for (uint32_t j = 0; j < LIST_CAP; j++) t->array[j] = c18_filler(kind); return t; }
+static void c18_list_copy_elems(int kind, struct ld *t, struct ld *d) { uint32_t n = d->end - d->begin; ASSERT(n <= LIST_CAP, "QList capacity of the model exceeded"); ASSUME(n <= LIST_CAP);
+  for (uint32_t j = 0; j < LIST_CAP; j++) { if (j < n) t->array[j] = c18_elem_ref(kind, d->array[d->begin + j]); } t->end = n; }
+/* private, appendable block for the list object */
+static void c18_list_detach(int kind, char *self, int force) { struct ld *d = LD(self);
+  if (C18_IS_NULL_LIST(d)) { LD(self) = c18_list_fresh(kind); return; }
+  if (force || d->ref != 1) { struct ld *t = c18_list_fresh(kind); c18_list_copy_elems(kind, t, d); if (d->ref != (uint32_t)-1 && d->ref != 0) d->ref--; LD(self) = t; } }
+static void c18_list_append_d(int kind, char *self, char *x) { c18_list_detach(kind, self, 0); struct ld *d = LD(self); uint32_t e = d->end;
+  ASSERT(e < LIST_CAP, "QList capacity of the model exceeded"); ASSUME(e < LIST_CAP); d->array[e] = c18_elem_ref(kind, x); d->end = e + 1; }
 void vp_c18_init(void) { c18_uo[0] = c18_mk16('o'); c18_uo[1] = c18_mk16('c'); c18_uk[0] = c18_mk8('A'); c18_uk[1] = c18_mk8('B'); c18_uk[2] = c18_mk8('C'); c18_uk[3] = c18_mk8('D'); c18_uk[4] = c18_mk8('X');
   c18_empty_qb = qb_new(0, 0); REF(c18_empty_qb) = (uint32_t)-1; c18_empty_qs = qs_new(0, 0); qs_seal(c18_empty_qs, 0); REF(c18_empty_qs) = (uint32_t)-1; }
-static void c18_list_append(char *self, char *t, char *filler) { c18_list_own(self, filler); struct ld *d = LD(self); uint32_t e = d->end; ASSERT(e < LIST_CAP, "QList capacity of the model exceeded"); ASSUME(e < LIST_CAP);
-  QAD *x = *(QAD**)t; qad_ref(x); d->array[e] = (char*)x; d->end = e + 1; }
-void _ZN5QListI10QByteArrayE6appendERKS0_(char *self, char *t) { c18_list_append(self, t, (char*)c18_empty_qb); }
-void _ZN5QListI7QStringE6appendERKS0_(char *self, char *t) { c18_list_append(self, t, (char*)c18_empty_qs); }
-/* QList<QXmppTrustMessageKeyOwner> (one QSharedDataPointer per node; reference count = first word of the private object) */
-void _ZN5QListI25QXmppTrustMessageKeyOwnerE6appendERKS0_(char *self, char *t) { struct ld *d = LD(self);
-  ASSERT(C18_IS_NULL_LIST(d) || d->ref == 1, "C18: append to a shared non-empty QList<QXmppTrustMessageKeyOwner>"); if (C18_IS_NULL_LIST(d)) LD(self) = c18_list_fresh(c18_dummy_owner); d = LD(self);
-  uint32_t e = d->end; ASSERT(e < LIST_CAP, "QList capacity of the model exceeded"); ASSUME(e < LIST_CAP);
-  char *x = *(char**)t; (*(int32_t*)x)++; d->array[e] = x; d->end = e + 1; }
+void _ZN5QListI10QByteArrayE6appendERKS0_(char *self, char *t) { c18_list_append_d(C18_B, self, *(char**)t); }
+void _ZN5QListI10QByteArrayE13detach_helperEi(char *self, uint32_t alloc) { c18_list_detach(C18_B, self, 1); }
+void _ZN5QListI10QByteArrayE13detach_helperEv(char *self) { c18_list_detach(C18_B, self, 1); }
+char* _ZN5QListI10QByteArrayE18detach_helper_growEii(char *self, uint32_t i, uint32_t c) { ASSERT(0, "C18: QList<T>::detach_helper_grow is not modelled (insert / prepend on shared lists)"); ASSUME(0); return 0; }
+void _ZN5QListI10QByteArrayEC2ERKS1_(char *self, char *o) { struct ld *d = LD(o); if (d->ref != (uint32_t)-1 && d->ref != 0) d->ref++; LD(self) = d; }
+void _ZN5QListI10QByteArrayE7deallocEPN9QListData4DataE(char *self, char *d) { }
+void _ZN5QListI7QStringE6appendERKS0_(char *self, char *t) { c18_list_append_d(C18_S, self, *(char**)t); }
+void _ZN5QListI7QStringE13detach_helperEi(char *self, uint32_t alloc) { c18_list_detach(C18_S, self, 1); }
+void _ZN5QListI7QStringE13detach_helperEv(char *self) { c18_list_detach(C18_S, self, 1); }
+char* _ZN5QListI7QStringE18detach_helper_growEii(char *self, uint32_t i, uint32_t c) { ASSERT(0, "C18: QList<T>::detach_helper_grow is not modelled (insert / prepend on shared lists)"); ASSUME(0); return 0; }
+void _ZN5QListI7QStringEC2ERKS1_(char *self, char *o) { struct ld *d = LD(o); if (d->ref != (uint32_t)-1 && d->ref != 0) d->ref++; LD(self) = d; }
+void _ZN5QListI7QStringE7deallocEPN9QListData4DataE(char *self, char *d) { }
+void _ZN5QListI25QXmppTrustMessageKeyOwnerE6appendERKS0_(char *self, char *t) { c18_list_append_d(C18_K, self, *(char**)t); }
+void _ZN5QListI25QXmppTrustMessageKeyOwnerE13detach_helperEi(char *self, uint32_t alloc) { c18_list_detach(C18_K, self, 1); }
+void _ZN5QListI25QXmppTrustMessageKeyOwnerE13detach_helperEv(char *self) { c18_list_detach(C18_K, self, 1); }
+char* _ZN5QListI25QXmppTrustMessageKeyOwnerE18detach_helper_growEii(char *self, uint32_t i, uint32_t c) { ASSERT(0, "C18: QList<T>::detach_helper_grow is not modelled (insert / prepend on shared lists)"); ASSUME(0); return 0; }
+void _ZN5QListI25QXmppTrustMessageKeyOwnerEC2ERKS1_(char *self, char *o) { struct ld *d = LD(o); if (d->ref != (uint32_t)-1 && d->ref != 0) d->ref++; LD(self) = d; }
 void _ZN5QListI25QXmppTrustMessageKeyOwnerE7deallocEPN9QListData4DataE(char *self, char *d) { }
+char* _ZN5QListI7QStringEpLERKS1_(char *self, char *l) { struct ld *s = LD(l); uint32_t n = s->end - s->begin;
+  for (uint32_t j = 0; j < LIST_CAP; j++) { if (j < n) c18_list_append_d(C18_S, self, s->array[s->begin + j]); } return self; }
 /* QtPrivate::RefCount::ref / deref (inline Qt code over std::atomic): same semantics, one step */
 uint8_t _ZN9QtPrivate8RefCount3refEv(char *self) { int32_t c = *(int32_t*)self; if (c == 0) return 0; if (c != -1) *(int32_t*)self = c + 1; return 1; }
 uint8_t _ZN9QtPrivate8RefCount5derefEv(char *self) { int32_t c = *(int32_t*)self; if (c == 0) return 0; if (c == -1) return 1; *(int32_t*)self = c - 1; return c - 1 != 0; }
-/* element destruction of dying list blocks: blocks and strings are never recycled by the models, reference counts of the elements
-   stay over-approximated (forces copies where Qt would modify in place; values unchanged) */
-void _ZN5QListI10QByteArrayE7deallocEPN9QListData4DataE(char *self, char *d) { }
-void _ZN5QListI7QStringE7deallocEPN9QListData4DataE(char *self, char *d) { }
 #endif
 
 /* ---- dynamic_cast<QXmppAtmTrustStorage*>(QXmppTrustStorage*) in QXmppAtmManager::trustStorage(): the only storage object of a
@@ -109,3 +126,8 @@ void _ZN9QDateTimeC1ERKS_(char *self, char *o) { *(char**)self = *(char**)o; }
 void _ZN9QDateTimeC1EOS_(char *self, char *o) { *(char**)self = *(char**)o; }
 void _ZN9QDateTimeD1Ev(char *self) { }
 char* _ZN9QDateTimeaSERKS_(char *self, char *o) { *(char**)self = *(char**)o; return self; }
+/* manual decisions about own keys: the contact JIDs of the follow-up trust message are sorted and de-duplicated with std::sort /
+   std::unique (libstdc++ introsort over QList<QString>::iterator).  Only the ARGUMENTS of sendTrustMessage depend on it (outside
+   the claim, see the recorder above): both are cut (list left as is, nothing reported as duplicate). */
+void _ZSt4sortIN5QListI7QStringE8iteratorEEvT_S4_(char *first, char *last) { }
+void _ZSt6uniqueIN5QListI7QStringE8iteratorEET_S4_S4_(char *ret, char *first, char *last) { *(char**)ret = *(char**)last; }
